@@ -9,6 +9,8 @@ use aldrin_core::ProtocolVersion;
 use futures_channel::mpsc;
 #[cfg(feature = "statistics")]
 use futures_channel::oneshot;
+#[cfg(all(feature = "verif-hooks", not(feature = "statistics")))]
+use futures_channel::oneshot;
 use futures_util::sink::SinkExt;
 
 /// Handle of an active broker.
@@ -232,4 +234,20 @@ impl BrokerHandle {
             .map_err(|_| BrokerShutdown)?;
         recv.await.map_err(|_| BrokerShutdown)
     }
+
+    /// Takes a snapshot of the broker's internal state (verification hook, read-only).
+    #[cfg(feature = "verif-hooks")]
+    pub async fn verif_snapshot(
+        &mut self,
+    ) -> Result<crate::verif::VerifSnapshot, BrokerShutdown> {
+        let (send, recv) = oneshot::channel();
+
+        self.send
+            .send(ConnectionEvent::VerifSnapshot(send))
+            .await
+            .map_err(|_| BrokerShutdown)?;
+
+        recv.await.map_err(|_| BrokerShutdown)
+    }
 }
+
